@@ -15,7 +15,7 @@ def run(ctx):
                 "stdout or stderr, unicode bodies incl. \\r, \\r\\n, NUL, astral, no trailing newline, empty writes), tasks failing after writing, 4 capture "
                 "methods, random PYTHONHASHSEED; report.sections and pipe bytes vs token accounting and vs the Lean model; non-trivial = >= 2 tasks "
                 "write a payload or one task writes >= 2; distinct by canonical (method, writes, fail flags)")
-    capture_api.campaign_c14(ctx, ctx.scale(64, 900), workers=8)
+    capture_api.campaign_c14(ctx, ctx.scale(64, 400), workers=8)
 
 
 def replay(ctx, obj):
